@@ -69,6 +69,43 @@ class Kill(BaseException):
 PRIMITIVES = ["_serialize_config_version", "_serialize_job_status_version", "_serialize_file"]
 
 
+def file_writers(cls):
+    """the methods of `cls` that open a file for writing themselves (`open(f, "w")`, `Path.write_text`, `.open("w")`): on the
+    unchanged tree exactly PRIMITIVES.  Found by what they do, so that renaming such a private helper does not leave the
+    suite without its kill points (it used to die with KeyError: a failed check for a harmless rename)."""
+    import ast
+    import inspect
+    import textwrap
+
+    def writes(call, mode_pos):
+        mode = call.args[mode_pos] if len(call.args) > mode_pos else next((k.value for k in call.keywords if k.arg == "mode"), None)
+        return isinstance(mode, ast.Constant) and isinstance(mode.value, str) and any(c in mode.value for c in "wax+")
+
+    out = []
+    for name, raw in cls.__dict__.items():
+        fn = raw.__func__ if isinstance(raw, (staticmethod, classmethod)) else raw
+        if not inspect.isfunction(fn):
+            continue
+        try:
+            tree = ast.parse(textwrap.dedent(inspect.getsource(fn)))
+        except (OSError, TypeError, SyntaxError):
+            continue
+        for n in ast.walk(tree):
+            if not isinstance(n, ast.Call):
+                continue
+            f = n.func
+            if (isinstance(f, ast.Name) and f.id == "open" and writes(n, 1)) \
+                    or (isinstance(f, ast.Attribute) and f.attr in ("write_text", "write_bytes")) \
+                    or (isinstance(f, ast.Attribute) and f.attr == "open" and src_name(f.value) != "os" and writes(n, 0)):
+                out.append(name)
+                break
+    return out
+
+
+def src_name(node):
+    return node.id if hasattr(node, "id") else None
+
+
 def res_enum(exc):
     if type(exc).__name__ == "AttributeError":
         return {"error": "attributeError"}
@@ -153,7 +190,9 @@ class ClusterSuite(Suite):
         self._kill = None
         self._in_prim = 0
         self._unhooked = []
-        self._saved_prims = {n: jc.Cluster.__dict__[n] for n in PRIMITIVES}
+        prims = [n for n in PRIMITIVES if n in jc.Cluster.__dict__]
+        prims += [n for n in file_writers(jc.Cluster) if n not in prims]
+        self._saved_prims = {n: jc.Cluster.__dict__[n] for n in prims}
         suite = self
 
         def gated(orig):
